@@ -603,11 +603,19 @@ fn parse_color(tokens: &[Token]) -> Result<Colour, nom::Err<nom::error::Error<&'
 fn parse_background_color(
     value: &RawValue,
 ) -> Result<Option<Colour>, nom::Err<nom::error::Error<&'static str>>> {
-    let tokens = if let Some(last) = value.tokens.rsplit(|tok| *tok == Token::Comma).next() {
-        last
-    } else {
-        return Err(empty_fail());
-    };
+    // The colour is part of the last layer; layers are separated by commas
+    // at the top level (not the ones inside rgb(..) and other functions).
+    let mut depth = 0usize;
+    let mut start = 0;
+    for (i, tok) in value.tokens.iter().enumerate() {
+        match tok {
+            Token::Function(_) | Token::OpenRound => depth += 1,
+            Token::CloseRound => depth = depth.saturating_sub(1),
+            Token::Comma if depth == 0 => start = i + 1,
+            _ => (),
+        }
+    }
+    let tokens = &value.tokens[start..];
 
     match parse_color(tokens) {
         Ok(col) => Ok(Some(col)),
